@@ -89,7 +89,9 @@ def cases(rng, tier):
                     # the assertion names a kid the client has not registered: the integrator's key resolver answers None; the forger ships its own key in a jwk header
                     "unknown-kid-resolver-none", "unknown-kid-own-jwk",
                     # a valid assertion at a grant whose permitted-method list does not contain the JWT method (the method is registered on the server for another grant)
-                    "method-not-permitted-by-grant"]:
+                    "method-not-permitted-by-grant",
+                    # an audience that is present but empty / of another JSON type: the assertion is not addressed to the token endpoint
+                    "aud-empty-list", "aud-zero", "aud-false", "aud-emptyobj", "aud-empty-string"]:
             out.append({"op": "assertion", "kind": kind, "mut": mut})
     return out
 
@@ -348,6 +350,8 @@ def impl_assertion(c, store, srv):
     elif mut == "aud": claims["aud"] = "https://other/token"
     elif mut == "aud-list": claims["aud"] = ["https://other/token", ms.TOKEN_URL]
     elif mut == "aud-superstring": claims["aud"] = "https://evil.example/cb?next=" + ms.TOKEN_URL
+    elif mut in ("aud-empty-list", "aud-zero", "aud-false", "aud-emptyobj", "aud-empty-string"):
+        claims["aud"] = {"aud-empty-list": [], "aud-zero": 0, "aud-false": False, "aud-emptyobj": {}, "aud-empty-string": ""}[mut]
     elif mut == "exp-past": claims["exp"] = now - 1000
     elif mut == "exp-within-leeway": claims["exp"] = now - 30
     elif mut == "exp-missing": claims.pop("exp")
